@@ -9,3 +9,46 @@ package openapi
 // one response code fails to convert (otherwise which error is returned first depends on the iteration order; no such input is known).
 //@ maporder makeResponseHeaders 1 result map is keyed by the loop key; per-key conversions are assumed independent
 //@ maporder newResponses 1 result map is keyed by the loop key; per-key conversions are assumed independent; early error return assumed to have a single candidate
+
+// ---------------------------------------------------------------------------
+// C17, panic clause: the explicit panics of the schema conversion are unreachable for the schemas a built catalog holds.
+
+//@ inlinepkg github.com/jsightapi/jsight-schema-core/bytes
+
+// notation of an exchange schema, by dynamic type (assumed contract of the interface method; the three implementations return exactly this)
+//@ fn esNotation(es catalog.ExchangeSchema) string :=
+//@     ite(typeis(es, *catalog.ExchangeJSightSchema), "jsight", ite(typeis(es, *catalog.ExchangeRegexSchema), "regex",
+//@     ite(typeis(es, *catalog.ExchangePseudoSchema), (*catalog.ExchangePseudoSchema)(es.ref).notation, "")))
+// a pseudo schema holds only "any" or "empty" (Catalog.AddType creates it for these two notations only)
+//@ pred esOK(es catalog.ExchangeSchema) := es != nil && in(esNotation(es), "jsight", "regex", "any", "empty")
+//@     && imp(typeis(es, *catalog.ExchangePseudoSchema), es.ref != 0 && in(esNotation(es), "any", "empty"))
+//@     && imp(typeis(es, *catalog.ExchangeJSightSchema) || typeis(es, *catalog.ExchangeRegexSchema), es.ref != 0)
+//@ extern (github.com/jsightapi/jsight-api-core/catalog.ExchangeSchema).Notation(es)
+//@   attr pure deterministic nopanic
+//@   ensures result == esNotation(es)
+//@ extern github.com/jsightapi/jsight-schema-core/openapi.NewJSchemaInfo(s)
+//@   attr nopanic
+//@   ensures result != nil
+//@ extern github.com/jsightapi/jsight-schema-core/openapi.NewRSchemaInfo(s)
+//@   attr nopanic
+//@   ensures result != nil
+//@ extern (github.com/jsightapi/jsight-schema-core/openapi.SchemaInfo).SchemaObject(i)
+//@   attr nopanic
+//@   ensures result != nil
+//@ extern (github.com/jsightapi/jsight-api-core/catalog/ser/openapi.schemaObject).SetDescription(o, d)
+//@   attr nopanic
+
+//@ func schemaObjectFromExchangeSchema(es)
+//@   property C17
+//@   requires[C17] esOK(es)
+//@   requires[C17,@empty-type-as-component] esNotation(es) != "empty"
+//@   ensures result != nil
+
+// user types of a built catalog: present values, non-empty names (they start with '@'), well-formed schemas
+//@ pred userTypesOK(tt *catalog.UserTypes) := catalog.omUserTypesInv(tt)
+//@     && forall(k, string, imp(has(tt.data, k), len(k) >= 1 && tt.data[k] != nil && esOK(tt.data[k].Schema)))
+
+//@ func newSchemas(tt)
+//@   property C17
+//@   requires userTypesOK(tt)
+//@   modifies nothing
